@@ -244,3 +244,26 @@ Definition current : cfg := fixed.
 Definition describe := describe_gen fixed.
 Definition is_uuid := is_uuid_gen fixed.
 Definition uuid_value := uuid_value_gen fixed.
+
+(* ---------- vocabulary of the theorems (executable) ---------- *)
+Definition uuid_ok (u : bytes) : bool := Nat.eqb (length u) 16 && bytes_ok u.
+
+Fixpoint attr (name : bytes) (l : list (bytes * bytes)) : option bytes :=
+  match l with
+  | [] => None
+  | (k, v) :: r => if bytes_eqb k name then Some v else attr name r
+  end.
+Definition shown (name : string) (i : info) : option bytes := attr (bytes_of_string name) (i_attrs i).
+Arguments shown name%string i.
+
+(* the four textual forms, lower case; every other spelling differs from these by letter case only *)
+Inductive form_kind := Canonical | Braced | Urn | Bare.
+Definition form (f : form_kind) (u : bytes) : bytes :=
+  match f with
+  | Canonical => canon u
+  | Braced => [123] ++ canon u ++ [125]
+  | Urn => urn_prefix ++ canon u
+  | Bare => hex_of false u
+  end.
+(* t spells s up to ASCII letter case *)
+Definition same_up_to_case (t s : bytes) : Prop := map to_lower_ascii t = s.
